@@ -237,6 +237,12 @@ func (g *gr3) eval(e ast.Expr, env *actEnv) aval {
 			out.nonNil = out.nonEmpty
 			return out
 		}
+		if cl, _ := g.constructorCall(e, env); cl != nil {
+			if tv, ok := g.info.Types[e]; ok && tv.Type != nil {
+				_, isPtr := tv.Type.(*types.Pointer)
+				return aval{typ: namedOrLit(tv.Type), nonNil: isPtr}
+			}
+		}
 		return aval{typ: g.typeStr(e)}
 	case *ast.Ident:
 		obj := g.info.Uses[e]
@@ -447,19 +453,72 @@ func (g *gr3) scanExpr(e ast.Expr, env *actEnv, report func(kind, key string, po
 		case *ast.UnaryExpr:
 			if n.Op == token.AND {
 				if cl, ok := n.X.(*ast.CompositeLit); ok {
-					t := g.info.Types[cl].Type
-					if nt, ok := t.(*types.Named); ok && nt.Obj().Pkg() != nil && nt.Obj().Pkg().Name() == "ast" {
-						for _, el := range cl.Elts {
-							if kv, ok := el.(*ast.KeyValueExpr); ok {
-								g.addField(nt.Obj().Name()+"."+exprStr(kv.Key), g.eval(kv.Value, env))
-							}
-						}
-					}
+					g.noteLiteral(cl, env)
 				}
+			}
+		case *ast.CallExpr:
+			// a constructor helper of the grammar's tail: func(p1, p2 …) *ast.T { return &ast.T{F: p1, …} }
+			if cl, env2 := g.constructorCall(n, env); cl != nil {
+				g.noteLiteral(cl, env2)
 			}
 		}
 		return true
 	})
+}
+
+// noteLiteral records the field constructions of an AST node literal.
+func (g *gr3) noteLiteral(cl *ast.CompositeLit, env *actEnv) {
+	t := g.info.Types[cl].Type
+	if nt, ok := t.(*types.Named); ok && nt.Obj().Pkg() != nil && nt.Obj().Pkg().Name() == "ast" {
+		for _, el := range cl.Elts {
+			if kv, ok := el.(*ast.KeyValueExpr); ok {
+				g.addField(nt.Obj().Name()+"."+exprStr(kv.Key), g.eval(kv.Value, env))
+			}
+		}
+	}
+}
+
+// constructorCall recognises a call of a hand-written function of the same
+// package whose body is a single `return &ast.T{…}` (or `return ast.T{…}`) and
+// returns that literal together with an environment in which the function's
+// parameters carry the abstract values of the call's arguments.
+func (g *gr3) constructorCall(call *ast.CallExpr, env *actEnv) (*ast.CompositeLit, *actEnv) {
+	fo := core.StaticCallee(g.info, call)
+	if fo == nil {
+		return nil, nil
+	}
+	f := g.c.P.FuncOf(fo)
+	if f == nil || f.Decl == nil || f.Generated || f.Body == nil || len(f.Body.List) != 1 || f.Type.Params == nil {
+		return nil, nil
+	}
+	ret, ok := f.Body.List[0].(*ast.ReturnStmt)
+	if !ok || len(ret.Results) != 1 {
+		return nil, nil
+	}
+	e := ast.Unparen(ret.Results[0])
+	if u, ok := e.(*ast.UnaryExpr); ok && u.Op == token.AND {
+		e = u.X
+	}
+	cl, ok := e.(*ast.CompositeLit)
+	if !ok {
+		return nil, nil
+	}
+	env2 := &actEnv{k: env.k, prod: env.prod, locals: map[types.Object]aval{}, cur: env.cur}
+	for k, v := range env.locals {
+		env2.locals[k] = v
+	}
+	i := 0
+	for _, fld := range f.Type.Params.List {
+		for _, nm := range fld.Names {
+			if i < len(call.Args) {
+				if obj := g.info.Defs[nm]; obj != nil {
+					env2.locals[obj] = g.eval(call.Args[i], env)
+				}
+			}
+			i++
+		}
+	}
+	return cl, env2
 }
 
 func normDollar(s string) string { return s }
@@ -534,6 +593,18 @@ func ruleGR3() Rule {
 				if c.P.Fset.Position(f.Pos()).Filename != gi.Gen.GoFile {
 					continue
 				}
+				// a constructor helper is evaluated at each of its call sites, with the arguments' values
+				if f.Decl != nil && len(f.Body.List) == 1 {
+					if ret, ok := f.Body.List[0].(*ast.ReturnStmt); ok && len(ret.Results) == 1 {
+						e := ast.Unparen(ret.Results[0])
+						if u, ok := e.(*ast.UnaryExpr); ok && u.Op == token.AND {
+							e = u.X
+						}
+						if _, isLit := e.(*ast.CompositeLit); isLit {
+							continue
+						}
+					}
+				}
 				env := &actEnv{prod: &Production{}, locals: map[types.Object]aval{}}
 				ast.Inspect(f.Body, func(n ast.Node) bool {
 					if as, ok := n.(*ast.AssignStmt); ok && as.Tok == token.DEFINE && len(as.Lhs) == len(as.Rhs) {
@@ -552,6 +623,11 @@ func ruleGR3() Rule {
 					if e, ok := n.(*ast.UnaryExpr); ok {
 						g.scanExpr(e, env, nil)
 						return false
+					}
+					if call, ok := n.(*ast.CallExpr); ok {
+						if cl, env2 := g.constructorCall(call, env); cl != nil {
+							g.noteLiteral(cl, env2)
+						}
 					}
 					return true
 				})
